@@ -76,10 +76,22 @@ def native_outcome(h, inputs):
         with patched(h):
             return _native_outcome(h, inputs)
     import signal
+    import warnings
+    out = None
+    for _attempt in range(2):
+        out = _native_outcome_forked(h, inputs, signal, warnings)
+        if out[0] != "timeout":
+            break           # (a child that inherited a lock held by a short-lived solver thread would hang: tried again)
+    return out
+
+
+def _native_outcome_forked(h, inputs, signal, warnings):
     r, w = os.pipe()
     sys.stdout.flush()
     sys.stderr.flush()
-    pid = os.fork()
+    with warnings.catch_warnings():
+        warnings.simplefilter("ignore", DeprecationWarning)
+        pid = os.fork()
     if pid == 0:
         code = 0
         try:
@@ -112,7 +124,7 @@ def native_outcome(h, inputs):
     return (out[0], out[1])
 
 
-NATIVE_TIMEOUT_S = 120
+NATIVE_TIMEOUT_S = 60
 
 
 def _native_outcome(h, inputs):
